@@ -360,7 +360,7 @@ func modelSprintf(x *Exec, fr *Frame, st *State, pc *preparedCall, k func(*State
 		for _, a := range pc.args[1:] {
 			ids = append(ids, x.identityOf(st, a))
 		}
-		tag := App("sprintf_"+sanitize(f)+fmt.Sprintf("_%d", len(ids)), SInt, ids...)
+		tag := App(x.sprintfSymbol(f, len(ids)), SInt, ids...)
 		st.assumeRaw(Eq(x.strID(st, r), tag))
 		x.sprintfFacts(st, f, pc.args[1:], r)
 	}
